@@ -104,3 +104,14 @@ func verifClientNow() int64 {
 	}
 	return time.Now().Unix()
 }
+
+// VerifClientCerts, when set, substitutes the raw certificate bytes an otherwise honest client
+// sends in its client auth / hidden request (check-time source seam "client-certs").
+var VerifClientCerts func(leaf, intermediate []byte) ([]byte, []byte)
+
+func verifClientCerts(leaf, intermediate []byte, err error) ([]byte, []byte, error) {
+	if err == nil && VerifClientCerts != nil {
+		leaf, intermediate = VerifClientCerts(leaf, intermediate)
+	}
+	return leaf, intermediate, err
+}
